@@ -78,4 +78,8 @@ def family(word):
         return "SD2"
     if n.startswith("RAW/DWVW"):
         return "RAW/DWVW"
+    if n.startswith("AIFF/DWVW"):
+        return "AIFF/DWVW"
+    if n.startswith("XI/"):
+        return "XI"
     return n
